@@ -127,7 +127,7 @@ def specs(draw, max_formulas=14, with_arrays=True, with_names=True,
                 ranges.append(full)
             return text, shape
 
-        kind = draw(st.integers(0, 33))
+        kind = draw(st.integers(0, 34))
         if focus == 'context' and kind % 2:
             kind = draw(st.integers(28, 33 if with_computed else 32))
         if kind == 0:
@@ -177,6 +177,16 @@ def specs(draw, max_formulas=14, with_arrays=True, with_names=True,
                 ranges.append(full)
             f = draw(st.sampled_from(['SUM', 'COUNT', 'MAX']))
             return f'={f}({q(INSHEET)}!{form})+{ref()}'
+        if kind == 34 and with_unbounded:
+            # the bounded twin of what an unbounded reference is bound to
+            # (the used area of the input sheet is A1:B3)
+            twin = draw(st.sampled_from(['A1:A3', 'B1:B3', 'A1:B1', 'A1:B3',
+                                         'A2:B3']))
+            full = f'{INSHEET}!{twin}'
+            if full not in ranges:
+                ranges.append(full)
+            f = draw(st.sampled_from(['SUM', 'COUNT', 'MAX']))
+            return f'={f}({q(INSHEET)}!{twin})-{ref()}'
         if kind == 17 and from_sheet == SHEET:
             # intersection of two rectangles that share a cell
             r = draw(st.integers(1, limit_row - 1))
